@@ -12,6 +12,8 @@ in a harness cannot swallow it.
 """
 from __future__ import annotations
 
+import signal
+import threading
 import time
 from fractions import Fraction
 from typing import Any, Callable, List, Optional
@@ -121,10 +123,17 @@ class Ctx:
     def _check(self, *extra: Any, timeout: int = BRANCH_TIMEOUT_MS) -> str:
         self.s.set("timeout", timeout)
         t = time.perf_counter()
-        r = self.s.check(*extra)
+        # z3's soft timeout is not always honoured inside nlsat: a watchdog thread interrupts the context a little later
+        _watch(self.s.ctx, timeout / 1000.0 + 2.0)
+        try:
+            r = str(self.s.check(*extra))
+        except z3.Z3Exception:
+            r = "unknown"
+        finally:
+            _WD["deadline"] = None
         self.stats.solver_s += time.perf_counter() - t
         self.stats.queries += 1
-        return str(r)
+        return r
 
     def add(self, c: Any) -> None:
         """Assume `c` (no fork).  Used for input domains and for followed decisions."""
@@ -162,6 +171,7 @@ class Ctx:
         """Decide a boolean z3 term; forks when both outcomes are feasible."""
         if isinstance(cond, bool):
             return cond
+        self._tick()  # every proxy-level decision counts: a loop that makes no progress runs into the step budget
         if self.pins:
             cond = z3.substitute(cond, *self.pins)
         cond = z3.simplify(cond)
@@ -173,7 +183,6 @@ class Ctx:
         known = self.decided.get(cond.get_id())
         if known is not None:
             return known
-        self._tick()
         if self.pos < len(self.prefix):
             d = self.prefix[self.pos]
             if not isinstance(d, bool):
@@ -217,8 +226,10 @@ class Ctx:
         if self.pos < len(self.prefix):
             d = self.prefix[self.pos]
             if isinstance(d, bool):
-                # the run that scheduled this prefix took no decision here: its unboundedness probe
-                # (below) must have fired; re-execution is deterministic, so it fires again
+                raise Unsupported("non-deterministic re-execution (expected pick decision)")
+            if d[0] == "nb":
+                # the run that scheduled this prefix found the symbol unbounded here (and may have caught that)
+                self.pos += 1
                 raise NeedsBound("unbounded symbol needs a concrete value")
             if d[0] == "pick":
                 self.pos += 1
@@ -229,10 +240,15 @@ class Ctx:
             excl = list(d[1])
             self.prefix.pop()
         if len(excl) >= cap:
+            self.prefix.append(("nb", 0))
+            self.pos += 1
             raise NeedsBound("domain larger than the realisation cap")
         if not excl:
             big = RV(10**7)
             if self._check(z3.Or(z > big, z < -big)) != "unsat":
+                # recorded as a decision so that re-executions stay aligned when the caller catches this
+                self.prefix.append(("nb", 0))
+                self.pos += 1
                 raise NeedsBound("unbounded symbol needs a concrete value")
         for e in excl:
             self.add(z != RV(e))
@@ -291,6 +307,13 @@ class Ctx:
             return "unknown", None
         finally:
             self.s.pop()
+
+    def query_lazy(self, conds: List[Any], axioms: List[Any], timeout: int = QUERY_TIMEOUT_MS):
+        """query(conds + axioms), asking first without the axioms (unsat without them is unsat with them)."""
+        r, m = self.query(*conds, timeout=timeout)
+        if r == "sat" and axioms:
+            return self.query(*conds, *axioms, timeout=timeout)
+        return r, m
 
     def valid(self, prop: Any, timeout: int = QUERY_TIMEOUT_MS):
         """Is `prop` true for every value on this path?  ('valid', None) / ('cex', model) / ('unknown', None)"""
@@ -702,6 +725,47 @@ class PathResult:
 
 
 _SOLVER: Optional[z3.Solver] = None
+PATH_WALL_S = 90.0
+_WD: dict = {"thread": None, "pid": None, "deadline": None, "ctx": None}
+
+
+def _wd_loop() -> None:
+    while True:
+        time.sleep(0.5)
+        d = _WD["deadline"]
+        if d is not None and time.time() > d:
+            _WD["deadline"] = None
+            try:
+                _WD["ctx"].interrupt()
+            except Exception:
+                pass
+
+
+def _watch(zctx: Any, seconds: float) -> None:
+    """One watchdog thread per process (restarted after fork): interrupts a solver call that overstays."""
+    import os
+
+    if _WD["pid"] != os.getpid() or _WD["thread"] is None or not _WD["thread"].is_alive():
+        t = threading.Thread(target=_wd_loop, daemon=True)
+        _WD.update(thread=t, pid=os.getpid())
+        t.start()
+    _WD["ctx"] = zctx
+    _WD["deadline"] = time.time() + seconds
+
+
+def _on_alarm(signum: Any, frame: Any) -> None:
+    raise Budget("wall-clock budget of one path exhausted (code under test does not terminate?)")
+
+
+def _arm(seconds: float) -> None:
+    """Per-path wall-clock guard (main thread only): a path that never returns becomes a budget-cut path."""
+    try:
+        if threading.current_thread() is threading.main_thread():
+            signal.signal(signal.SIGALRM, _on_alarm)
+            signal.setitimer(signal.ITIMER_REAL, seconds)
+    except (ValueError, OSError):
+        pass
+
 
 
 def solver() -> z3.Solver:
@@ -741,8 +805,10 @@ def explore(
         s.push()
         c = Ctx(s, prefix, stats, max_steps=max_steps)
         Ctx.cur = c
+        _arm(PATH_WALL_S)
         try:
             v = harness(c)
+            _arm(0)
             out.append(PathResult("ok", v, c.prefix))
             stats.paths += 1
             n += 1
@@ -764,6 +830,7 @@ def explore(
             out.append(PathResult("unknown", prefix=c.prefix, detail=str(e)))
             n += 1
         finally:
+            _arm(0)
             Ctx.cur = None
             s.pop()
         stack.extend(c.pending)
